@@ -76,6 +76,7 @@ fn main() {
         cur_regime: String::new(),
         cur_case: 0,
         max_samples: 4,
+        quiet: false,
     };
     if !mon::dispatch(&mut c) {
         eprintln!("unknown property {}", prop);
